@@ -481,6 +481,7 @@ class CHECK(core.Check):
 
     def _oracle_cli(self, case, out):
         queued = b""
+        n_before = 0          # packets waiting before the call (each needs one send; + 1 for a leftover in txbs)
         for tok, line in zip(case["ops"], out):
             f = dict(x.split("=", 1) for x in line.split(" ")[-8:])
             err = line.split(" wire=")[0]
@@ -500,15 +501,16 @@ class CHECK(core.Check):
                         % (tok[:12], [x.hex() for x in rx], rxbs.hex(), delivered.hex()))
             connected, cut = f["c"] == "1", f["x"] == "1"
             if tok[0] == "P" and connected and not cut:
-                if self._accepting(tok[1:], len(queued), len(q) + 8) and (txbs or q):
+                if self._accepting(tok[1:], len(queued), n_before + 1) and (txbs or q):
                     return ("after %s: socket accepted everything but %d bytes are still pending"
                             % (tok[:12], len(txbs) + sum(map(len, q))))
             if tok[0] == "R" and case["parser"] == "whole" and rxbs:
                 return "after %s: %d received bytes left outside any packet" % (tok[:12], len(rxbs))
+            n_before = len(q)
         return None
 
     def _oracle_srv(self, case, out):
-        expected = {}
+        expected, n_before = {}, {}
         last_full = False
         for tok, line in zip(case["ops"], out):
             head, rest = line.split(" ix=")
@@ -537,7 +539,7 @@ class CHECK(core.Check):
                             % (tok[:12], ca, wire.hex(), pend.hex(), expected.get(ca, b"").hex()))
                 if k == "X" and last_full and not cut:
                     sc = dict(p.split("=") for p in tok[1:].split(";") if "=" in p).get(str(ca), "")
-                    if self._accepting(sc, len(expected.get(ca, b"")), len(txes) + 8) and pend:
+                    if self._accepting(sc, len(expected.get(ca, b"")), n_before.get(ca, 0)) and pend:
                         return ("after %s connection %d: socket accepted everything but %d bytes pending"
                                 % (tok[:12], ca, len(pend)))
                 got = b"".join(d for c, d in rx if c == ca) + rxbs
@@ -547,6 +549,7 @@ class CHECK(core.Check):
                 if tok == "S" and case["parser"] == "whole" and rxbs:
                     return "after S connection %d: %d received bytes left outside any packet" % (ca, len(rxbs))
             last_full = (tok == "P" and head == "ok")
+            n_before = {ca: len(v[1]) for ca, v in ix.items()}
         return None
 
     def nontrivial(self, case, out):
